@@ -50,7 +50,7 @@ def register(reg, prog):
 
     reg.specfuncs['as_response_address'] = lambda ex, st, r: (r.some() if isinstance(r, VOpt) else r)
 
-    reg.contract(MM + '.dispatch_message', params={'message': MSG}, properties=P,
+    reg.contract(MM + '.dispatch_message', params={'message': MSG}, properties=P + ['C03', 'C04', 'C02'],
                  requires=['message.code is not None', 'message.mtype is not None', 'message.remote is not None',
                            'mm_wf(self)', 'nstart_inv(self)', '0 <= message.mtype <= 3', '0 <= message.code <= 255'],
                  only_raises=True, at_exit=dm_exit)
@@ -76,7 +76,7 @@ def register(reg, prog):
             g.append(('ack-to-remote', ev('a.remote == as_response_address(remote)', a=e[2])))
         return g
     reg.contract(MM + '._send_empty_ack#body', params={'remote': Opt(Ref('Remote')), 'mid': Opt(INT), 'reason': STR},
-                 properties=P, requires=['remote is not None'], only_raises=True, at_exit=eack_exit)
+                 properties=P + ['C04'], requires=['remote is not None'], only_raises=True, at_exit=eack_exit)
 
     reg.contract(MM + '._process_response#body', params={'response': MSG}, result=BOOL, properties=P, only_raises=True,
                  at_exit=lambda ex, s, entry, env, result: [
